@@ -229,7 +229,7 @@ def detach(run, vm):
         raise AnalysisBroken('Segment::freeSlot: re-construction of the slot not found')
     nb = fs.block_of[newx[0]['i']]
     # (1) detached from its parent before re-construction
-    p1 = [e for e in rem if 'attachedTo()' in fs.render(fs.N(e['obj']))]
+    p1 = [e for e in rem if 'attachedTo()' in fs.render(fs.N(e['obj']), resolve=True)]
     ok1 = False
     for e in p1:
         f = [x[:3] for x in dom.facts_at(fs, e['i'])]
@@ -239,7 +239,7 @@ def detach(run, vm):
     # every path to the re-construction either had no parent or passed the removeChild
     if p1:
         pb = fs.block_of[p1[0]['i']]
-        cut = dom.edges_with(fs, lambda x: x[0] == 'aSlot.attachedTo()' and x[1] == '==' and x[2] == '0')
+        cut = dom.edges_with(fs, lambda x: x[0].replace('->', '.') == 'aSlot.attachedTo()' and x[1] == '==' and x[2] == '0')
         seen, st = set(), [fs.entry]
         leak = False
         while st:
@@ -278,7 +278,8 @@ def detach(run, vm):
                      'parent (guard %s, alternative branch %s): freeing the scratch copy made by TEMP_COPY orphans the children of the original, which '
                      'still lists them' % (ok2, alt))
     # (3) the child loop runs before re-construction
-    loops = [b for b in fs.blocks if (fs.blocks[b].get('term') or {}).get('k') == 'WhileStmt' and 'firstChild()' in fs.render(fs.term_cond(b))]
+    loops = [b for b in fs.blocks if (fs.blocks[b].get('term') or {}).get('k') in ('WhileStmt', 'ForStmt', 'DoStmt') and fs.term_cond(b) is not None
+             and 'firstChild()' in fs.render(fs.term_cond(b), resolve=True)]
     if loops and loops[0] in fs.dominators()[nb]:
         run.held('DETACH', 'children released before reuse', fs.where(), 'while (firstChild()) loop dominates the re-construction', False)
     else:
